@@ -330,6 +330,19 @@ var scriptGen = rapid.Custom(func(t *rapid.T) Script {
 	if rapid.IntRange(0, 3).Draw(t, "golast") == 0 {
 		s.GoLast = []Rule{{Token: rapid.SampledFrom(tokens).Draw(t, "gltok"), Out: goOut.Draw(t, "glout")}}
 	}
+	if rapid.IntRange(0, 3).Draw(t, "chain") == 0 {
+		// an explicit defer from the script, and a later Go listener that would decide otherwise
+		// for the very same key: the chain must stop at the defer
+		tok := rapid.SampledFrom(tokens).Draw(t, "chaintok")
+		s.HasMail, s.HasRcpt = true, true
+		s.MailFrom = append([]Rule{{Token: tok, Out: Out{Kind: "defer"}}}, s.MailFrom...)
+		s.RcptTo = append([]Rule{{Token: tok, Out: Out{Kind: "defer"}}}, s.RcptTo...)
+		last := Out{Kind: rapid.SampledFrom([]string{"deny", "denycode", "allow"}).Draw(t, "chainlast")}
+		if last.Kind == "denycode" {
+			last.Code, last.Msg = 554, "go hook says no"
+		}
+		s.GoLast = []Rule{{Token: tok, Out: last}}
+	}
 	return s
 })
 
